@@ -6,12 +6,14 @@ package protocol
 // policy of each end.
 
 import (
+	"crypto/sha1"
 	"bytes"
 	"fmt"
 	"os"
 	"testing"
 
 	"github.com/jech/storrent/crypto"
+	"github.com/jech/storrent/zzverif/refmse"
 	"github.com/jech/storrent/zzverif/vh"
 )
 
@@ -194,6 +196,59 @@ func TestVerifC08(t *testing.T) {
 			if sel == 1 || sel == 2 {
 				h.judge(cfg, r, "crypto_select sweep")
 			}
+		}
+	}
+	// (d) key derivation when the Diffie-Hellman secret has leading zero bytes: the
+	// specification hashes S as a 96-byte integer.  storrent's private value is
+	// fixed by the scripted generator, so its public value is learnt in a probe
+	// run and the reference side's private value is then searched for such that
+	// S starts with 1 (thorough: also 2) zero bytes.
+	allowAll := crypto.Options{AllowCryptoHandshake: true, PreferCryptoHandshake: true, AllowEncryption: true, PreferEncryption: true}
+	for _, refIsClient := range []bool{true, false} {
+		if !mine() {
+			continue
+		}
+		base := hsConfig{MSE: true, COpts: allowAll, SOpts: allowAll, ClientRef: refIsClient, ServerRef: !refIsClient, RefProvide: 3, PadC: 2, PadS: 4, RefPadC: 1, RefPadD: 1, EarlyC: c08Payload, EarlyS: c08Payload}
+		probe := runHandshake(t, base, defaultPolicy)
+		h.judge(base, probe, "leading-zero secret: probe")
+		if !probe.C.OK || !probe.S.OK || len(probe.RefPeerPub) != 96 {
+			res.Violate("C08/interop/probe-failed", fmt.Sprintf("a reference %s and storrent with permissive options did not establish a connection (client err=%q server err=%q)", map[bool]string{true: "client", false: "server"}[refIsClient], probe.C.Err, probe.S.Err), hsReplay{base, nil, "coalesced"})
+			continue
+		}
+		maxZeros := 1
+		if vh.Thorough() {
+			maxZeros = 2
+		}
+		for zeros := 1; zeros <= maxZeros; zeros++ {
+			var secret []byte
+			for i := 0; i < 1<<22 && secret == nil; i++ {
+				c := sha1.Sum([]byte(fmt.Sprintf("leading-zero-%d-%d", zeros, i)))
+				sh := refmse.Shared(c[:], probe.RefPeerPub)
+				nz := 0
+				for nz < len(sh) && sh[nz] == 0 {
+					nz++
+				}
+				if nz == zeros {
+					secret = c[:]
+				}
+			}
+			if secret == nil {
+				res.NotExhaustive("no private value found for a shared secret with leading zero bytes")
+				continue
+			}
+			cfg := base
+			cfg.RefSecret = secret
+			r := runHandshake(t, cfg, defaultPolicy)
+			h.judge(cfg, r, "leading-zero secret")
+			res.Add("leading_zero_secrets", 1)
+			if len(r.RefS) == 96 && r.RefS[0] != 0 {
+				res.NotExhaustive("storrent's public value changed between the probe and the run")
+			}
+			if !r.C.OK || !r.S.OK {
+				res.Violate("C08/interop/leading-zero-secret", fmt.Sprintf("with a Diffie-Hellman secret that starts with %d zero byte(s) a specification-conforming %s and storrent do not interoperate (client err=%q, server err=%q); with another secret they do: S is not hashed as a 96-byte integer",
+					zeros, map[bool]string{true: "client", false: "server"}[refIsClient], r.C.Err, r.S.Err), hsReplay{cfg, nil, "coalesced"})
+			}
+			h.nontriv[fmt.Sprintf("zeroS/%v/%d/%v", refIsClient, zeros, r.C.OK && r.S.OK)] = true
 		}
 	}
 	res.Sample(map[string]any{"client": optString(optsFromBits(9)), "server": optString(optsFromBits(63)), "kind": "mse"})
